@@ -340,6 +340,83 @@ def shell_flavours(ctx, pexpect, pxssh_mod, n):
     ctx.oracle_stats['shell_flavour_sessions'] = tried
 
 
+PROMPT_RX = ('seq', H.lit('[PEXPECT]'), ('seq', ('cls', False, '$#'), ('seq', ('chr', ' '), ('eps',))))
+
+
+def prompt_cases(ctx, pexpect, pxssh_mod, n):
+    """job pxssh-prompt: the REAL pxssh.prompt() on a scripted transport (sessions with unique prompts, prompt-like fragments in
+    the outputs, type-ahead, TIMEOUT / EOF events, timeout 0) against Login/Prompt.v after every call; and the direct statement
+    of the clause: each True hands back exactly one command's output"""
+    import re as _re
+    TMO, EOF_ = '\x00T', '\x00E'          # markers that cannot be pieces of the session text
+    rng = ctx.rng
+    cases = []
+    nhit = 0
+    for it in range(n):
+        ncmd = rng.randint(0, 4)
+        outs = [''.join(rng.choice(['a', 'b', '\r\n', '[', '[PEXPECT', ']$ ', '$ ', '[PEXPECT]']) for _ in range(rng.randint(0, 5))) for _ in range(ncmd)]
+        outs = [o for o in outs if not _re.search(r'\[PEXPECT\][\$\#] ', o + '[PEXPECT]$ '[:-1]) or True]
+        prompts = [rng.choice(['[PEXPECT]$ ', '[PEXPECT]# ']) for _ in range(ncmd)]
+        stream = ''.join(o + p for o, p in zip(outs, prompts)) + rng.choice(['', 'tail', '[PEXPECT]'])
+        script, i = [], 0
+        while i < len(stream):
+            k = rng.choice([1, 2, 3, 7, 40, 200])
+            script.append(stream[i:i + k])
+            i += k
+            if rng.random() < 0.15:
+                script.append(TMO)
+        script.append(rng.choice([TMO, TMO, EOF_]))
+        calls = [rng.random() < 0.2 for _ in range(rng.randint(1, ncmd + 2))]
+
+        class PS(pxssh_mod.pxssh):
+            def read_nonblocking(self_, size=1, timeout=None):
+                if not self_.script:
+                    raise pexpect.EOF('script exhausted')
+                ev = self_.script.pop(0)
+                if ev == TMO:
+                    raise pexpect.TIMEOUT('scripted')
+                if ev == EOF_:
+                    raise pexpect.EOF('scripted')
+                return ev
+
+            def __str__(self_):
+                return '<scripted pxssh>'
+        p = PS()
+        p.script = [e if e in (TMO, EOF_) else e.encode('latin-1') for e in script]
+        p.delayafterread = None
+        obs = []
+        handed = []
+        for t0 in calls:
+            try:
+                r = p.prompt(timeout=0 if t0 else 30)
+                if r is True:
+                    res = [0, p.match_index, p.before, p.after, p.match.span()[0], p.match.span()[1]]
+                    handed.append((p.before, p.after))
+                    flag = 1
+                else:
+                    res = [2, [1], p.before]
+                    flag = 0
+            except pexpect.EOF:
+                res, flag = [1, [], p.before], 2
+            except pexpect.TIMEOUT:
+                res, flag = [2, [], p.before], 2
+            obs.append([flag, [[res], p._before.getvalue(), p._buffer.getvalue(), len(p.script)]])
+        # the clause itself: the k-th True delimits exactly the k-th command of the session - when the prompt is unique in the
+        # session (no output produces prompt text by itself or together with what follows)
+        full = _re.compile(r'\[PEXPECT\][\$\#] ')
+        unique = [m.start() for m in full.finditer(stream)] == [sum(len(o) + len(q) for o, q in zip(outs[:j], prompts[:j])) + len(outs[j]) for j in range(ncmd)]
+        if unique and nhit < 2:
+            want = [(o.encode('latin-1'), q.encode('latin-1')) for o, q in zip(outs, prompts)][:len(handed)]
+            if handed != want:
+                nhit += 1
+                ctx.hit('C17/prompt-delimits', 'session %r cut into %r: the prompt() calls that returned True handed back %r, the commands\' outputs and prompts are %r'
+                        % (stream, script, handed, want), {'stream': stream, 'script': script, 'calls': calls})
+        evs = clist([{TMO: 'Timeout', EOF_: 'Eof'}.get(e) if e in (TMO, EOF_) else '(Data %s)' % ctext(e) for e in script])
+        cases.append(('(%s, %s, %s, {| pend := []; buf := [] |})' % (H.rx_coq(PROMPT_RX), clist([cbool(t) for t in calls]), evs), obs,
+                      {'stream': stream, 'script': script, 'calls': calls}))
+    ctx.run_cases('pxssh-prompt', ['Base.PySeq', 'Base.Rx', 'Expect.Model', 'Login.Run'], 'run_prompt_case', 'rx * list bool * list ev * st', cases, shard=300)
+
+
 def run(ctx):
     pexpect = common.preflight()
     from pexpect import pxssh as pxssh_mod
@@ -399,6 +476,8 @@ def run(ctx):
         ctx.corr_broken.append(('tree-login', {'error': 'model did not build'}))
     prompt_delimits(ctx, pexpect, pxssh_mod, 3000 if thorough else 400)
     shell_flavours(ctx, pexpect, pxssh_mod, 300 if thorough else 45)
+    if os.path.exists(os.path.join(common.COQ, 'Login/Run.vo')):
+        prompt_cases(ctx, pexpect, pxssh_mod, 6000 if thorough else 900)
     FINISH['extra'] = {'exhaustive': bool(complete_all)}
 
 
